@@ -39,6 +39,8 @@ func init() {
 	generators["slowbeat"] = genSlowBeat
 	generators["latepromote"] = genLatePromote
 	generators["negprio"] = genNegPrio
+	generators["acklosttakeover"] = genAckLostTakeover
+	generators["promoterace"] = genPromoteRace
 	generators["twoinflight"] = genTwoInFlight
 	generators["outage"] = genOutage
 	generators["slowdemote"] = genSlowDemote
@@ -2341,7 +2343,7 @@ func genHealthConn(r rng, k int) *Spec {
 // ---------------------------------------------------------------------------
 
 // DupAcquireTotal is the size of the enumeration.
-func DupAcquireTotal() int { return 3 * 3 * 2 * 2 }
+func DupAcquireTotal() int { return 3 * 3 * 2 * 2 * 2 }
 
 func genDupAcquire(r rng, k int) *Spec {
 	idx := k % DupAcquireTotal()
@@ -2355,8 +2357,34 @@ func genDupAcquire(r rng, k int) *Spec {
 	// already cancelled context ended it) when the first answer arrives: the instance is a
 	// follower again, and the record in the store is the second term's
 	endSecond := idx%2 == 1
+	idx /= 2
+	// the first Create is held BEFORE the store applies it: the second round wins the vacant
+	// key and its term runs; that term's record then vanishes, and only now the first Create
+	// reaches the store - it is accepted (the key is vacant again) and answered while the
+	// instance still leads the other term
+	lateApply := idx%2 == 1
 	h := r.pickD(500*ms, 1*sec)
 	s := &Spec{TTL: 5 * h, NoPreempt: true, Tags: []string{"dupacquire", gone}}
+	if lateApply {
+		s.Tags = append(s.Tags, "late-apply")
+		s.Lat = Latency{Min: ms, Max: r.pickD(2*ms, 5*ms)}
+		s.Insts = mkInsts(2, 1, h)
+		s.Insts[1].BlockPromote = block
+		s.Breaks = []BreakSpec{{Name: "c1", Client: "i1", Op: "Create", Nth: 1, Phase: "req"}}
+		s.Actions = append(s.Actions, Action{At: 10 * ms, Kind: "start", Inst: "i0"}, Action{At: 300 * ms, Kind: "start", Inst: "i1"},
+			Action{At: 3 * sec, Kind: "arm", Break: "c1"},
+			Action{Chain: true, Kind: "stop", Inst: "i0", Stop: &StopVariant{DeleteKey: true, Wait: true, Timeout: 5 * sec}},
+			Action{After: ms, Kind: "waitbreak", Break: "c1", D: 3 * sec},
+			// the periodic check (500 ms) finds the key vacant, a second round creates the record
+			Action{After: 900*ms + after, Kind: r.pickS("outdel", "outexpire"), Inst: "g0"},
+			Action{After: time.Nanosecond, Kind: "release", Break: "c1"})
+		if endSecond {
+			s.Actions = append(s.Actions, Action{After: 2 * h, Kind: "validate", Inst: "i1", Val: "bg", OrDemote: true})
+		}
+		s.Duration = 8 * h
+		s.Sample = sampleFor(h)
+		return s
+	}
 	s.Lat = Latency{Min: ms, Max: r.pickD(2*ms, 5*ms)}
 	s.Insts = mkInsts(2, 1, h)
 	s.Insts[1].BlockPromote = block
@@ -2678,6 +2706,94 @@ func genNegPrio(r rng, k int) *Spec {
 	s.Actions = append(s.Actions, Action{At: 10 * ms, Kind: "start", Inst: "i0"},
 		Action{At: 10*ms + 2*h + r.dur(0, h), Kind: "start", Inst: "i1"})
 	s.Duration = 12 * h
+	s.Sample = sampleFor(h)
+	return s
+}
+
+// ---------------------------------------------------------------------------
+// acklosttakeover: a takeover-enabled candidate's Create is applied, but its answer is lost:
+// the call fails with a time-out some time later. Meanwhile the record it never knew about
+// has expired (or was deleted) and a lower-priority instance holds the key. The attempt goes
+// on to its takeover path and preempts that instance - with a token of its own, not with the
+// one the lost Create had already put into the record.
+// ---------------------------------------------------------------------------
+
+// AckLostTakeoverTotal is the size of the enumeration.
+func AckLostTakeoverTotal() int { return 3 * 2 * 2 }
+
+func genAckLostTakeover(r rng, k int) *Spec {
+	idx := k % AckLostTakeoverTotal()
+	gone := []string{"expire", "outdel", "outexpire"}[idx%3]
+	idx /= 3
+	h := []time.Duration{200 * ms, 500 * ms}[idx%2]
+	idx /= 2
+	errk := []string{"timeout", "noresponders"}[idx%2]
+	s := &Spec{TTL: 3 * h, Tags: []string{"priority", "acklosttakeover", gone}}
+	s.Lat = Latency{Min: ms, Max: r.pickD(2*ms, 5*ms)}
+	s.Insts = mkInsts(2, 1, h)
+	s.Insts[0].Priority = 1
+	s.Insts[1].Priority, s.Insts[1].Takeover = 3, true
+	// i1's first Create: applied, the answer lost; the call returns its error only after the
+	// record has gone and i0 has had time to take the vacant key
+	hang := s.TTL + 1500*ms
+	if gone != "expire" {
+		hang = 2 * sec
+	}
+	s.Rules = append(s.Rules, FaultRule{Client: "i1", Op: "Create", FromOrd: 1, ToOrd: 1, Kind: "acklost", Err: errk, Hang: hang})
+	s.Actions = append(s.Actions, Action{At: 10 * ms, Kind: "start", Inst: "i1"}, Action{At: 60 * ms, Kind: "start", Inst: "i0"})
+	switch gone {
+	case "outdel":
+		s.Actions = append(s.Actions, Action{At: 300 * ms, Kind: "outdel", Inst: "g0"})
+	case "outexpire":
+		s.Actions = append(s.Actions, Action{At: 300 * ms, Kind: "outexpire", Inst: "g0"})
+	}
+	s.Duration = hang + 8*h
+	s.Sample = sampleFor(h)
+	return s
+}
+
+// ---------------------------------------------------------------------------
+// promoterace: a promotion is held in one of the calls into user code it makes while it
+// publishes the term (metrics sink, logger); at that instant the record is replaced from
+// outside and the application validates with ValidateTokenOrDemote - or its validation's
+// read fails: a demotion races the promotion. Whichever way the library orders the two, the
+// term that was published is ended properly: flag down, OnDemote after OnPromote, promotion
+// context cancelled, gauge 0.
+// ---------------------------------------------------------------------------
+
+var prHolds = []string{"metric:transition:LEADER", "metric:isleader:1", "log:state_transition", "log:leader_promoted"}
+
+// PromoteRaceTotal is the size of the enumeration.
+func PromoteRaceTotal() int { return len(prHolds) * 2 * 2 }
+
+func genPromoteRace(r rng, k int) *Spec {
+	idx := k % PromoteRaceTotal()
+	hold := prHolds[idx%len(prHolds)]
+	idx /= len(prHolds)
+	forge := idx%2 == 0
+	idx /= 2
+	h := []time.Duration{200 * ms, 500 * ms}[idx%2]
+	s := &Spec{TTL: 3 * h, NoPreempt: true, Tags: []string{"promoterace", hold}}
+	s.Lat = Latency{Max: r.pickD(0, 2*ms)}
+	s.Insts = mkInsts(1, 1, h)
+	s.Insts[0].BlockPromote = true
+	s.Breaks = []BreakSpec{{Name: "pr", Client: "i0", Op: hold, Nth: 1, Phase: "sink", Armed: true}}
+	var acts []Action
+	if forge {
+		acts = append(acts, Action{Kind: "output", Inst: "g0", Val: `{"id":"intruder","token":"x"}`})
+	} else {
+		acts = append(acts, Action{Kind: "rule", Rule: &FaultRule{Client: "i0", Op: "Get", ToOrd: 1, Kind: "err", Err: "timeout"}})
+	}
+	acts = append(acts,
+		Action{Kind: "validate", Inst: "i0", Val: "bg", OrDemote: true},
+		Action{Kind: "spin", D: 2 * ms},
+		Action{Kind: "release", Break: "pr"})
+	s.Reactions = []Reaction{{Break: "pr", Actions: acts}}
+	s.Actions = append(s.Actions, Action{At: 10 * ms, Kind: "start", Inst: "i0"})
+	if forge {
+		s.Actions = append(s.Actions, Action{At: 10*ms + 4*h, Kind: "outdel", Inst: "g0"})
+	}
+	s.Duration = 10 * h
 	s.Sample = sampleFor(h)
 	return s
 }
